@@ -679,8 +679,8 @@ func (c *Ctx) PostingsAppliedToCache(ob *core.Obligation, r *Roles) {
 		var rec *ssa.Call
 		for _, ci := range core.Calls(fn) {
 			if call, ok := ci.(*ssa.Call); ok {
-				if sc := call.Call.StaticCallee(); sc != nil && returnsPostings(sc) && sc != fn {
-					if rec == nil && buildsPostings(sc, r) {
+				if sc := call.Call.StaticCallee(); sc != nil && sc != fn && c.IsReconciler(sc, r) {
+					if rec == nil {
 						rec = call
 					}
 				}
